@@ -17,14 +17,14 @@ ExitsBadly  == {"exit1", "exit255", "sigkill", "sigsegv", "replykill", "replyabr
 \* undecodable strings one field at a time (file path, contents, diagnostic message, diagnostic source); "cut" = the string
 \* stops in the middle of a multi-byte character
 BadStrings  == {"badutf8", "badutf8cut", "badcontents", "badcontentsmid", "badmsg", "badmsgcut", "badsource", "badsourcecut"}
-BadReply    == {"trunc1", "truncmid", "trunclast", "truncat", "badbool", "badlevel", "hugesize", "empty"} \cup BadStrings
+BadReply    == {"trunc1", "truncmid", "trunclast", "truncat", "badbool", "badlevel", "hugesize", "hugestr", "hugecontents", "empty"} \cup BadStrings
 \* "closeflood": closes its stdin at once without exiting (so that a request larger than a pipe buffer cannot be written),
 \* then writes more than a pipe buffer of output that is no reply
 Catalogue   == OkLike \cup NotStarted \cup ExitsBadly \cup BadReply \cup {"stderr0", "noread", "closeflood"}
 ReadsAll(b) == b \in OkLike \cup ExitsBadly \cup BadReply \cup {"stderr0"}
 NFilesOf(b) == CASE b \in {"ok1", "okinfo", "okwarn", "oksource", "okshort", "okwide"} -> 1 [] b = "ok2" -> 2 [] OTHER -> 0
 \* how many reply chunks a behaviour writes before exiting
-ReplyChunks(b) == CASE b \in OkLike \cup BadStrings \cup {"badbool", "badlevel", "hugesize", "replykill", "replyabrt"} -> ReplyLen
+ReplyChunks(b) == CASE b \in OkLike \cup BadStrings \cup {"badbool", "badlevel", "hugesize", "hugestr", "hugecontents", "replykill", "replyabrt"} -> ReplyLen
                     [] b \in {"trunc1", "truncmid", "trunclast", "truncat"} -> ReplyLen - 1
                     [] OTHER -> 0
 
